@@ -907,4 +907,126 @@ func probes(in json.RawMessage, res *vh.Result) error {
 	return nil
 }
 
-func main() { vh.Main(map[string]vh.Mode{"replay": replay, "probes": probes}) }
+// sfprobes: history reads of different requests must not share results (Config.UseSingleFlight): a read parked
+// inside the broker must not be joined by a recovery with another epoch (C02) or by a read of the other direction (C03).
+func sfprobes(in json.RawMessage, res *vh.Result) error {
+	var cfg struct {
+		N int `json:"n"`
+	}
+	_ = json.Unmarshal(in, &cfg)
+	if cfg.N == 0 {
+		cfg.N = 2
+	}
+	for i := 0; i < cfg.N; i++ {
+		for _, probe := range []string{"sf-epoch", "sf-reverse"} {
+			env, err := cl.NewEnv(centrifuge.Config{LogLevel: centrifuge.LogLevelNone, UseSingleFlight: true})
+			if err != nil {
+				return err
+			}
+			gb, err := cl.NewGateBroker(env.Node)
+			if err != nil {
+				return err
+			}
+			env.Node.SetBroker(gb)
+			ch := fmt.Sprintf("%s%d_%d", probe, vh.Seed(), i)
+			var armed atomic.Bool
+			gate := cl.NewGate()
+			gb.BeforeHistory = func(c string, _ centrifuge.HistoryOptions) {
+				if c == ch && armed.CompareAndSwap(true, false) {
+					gate.Arrive(5 * time.Second)
+				}
+			}
+			mode := centrifuge.RecoveryModeStream
+			if probe == "sf-reverse" {
+				mode = centrifuge.RecoveryModeCache
+			}
+			env.OnSubscribe = func(_ *centrifuge.Client, _ centrifuge.SubscribeEvent, cb centrifuge.SubscribeCallback) {
+				cb(centrifuge.SubscribeReply{Options: centrifuge.SubscribeOptions{EnableRecovery: true, RecoveryMode: mode}}, nil)
+			}
+			if err := env.Run(); err != nil {
+				return err
+			}
+			var epoch string
+			for k := 1; k <= 2; k++ {
+				pr, _ := env.Node.Publish(ch, []byte(strconv.Itoa(k)), centrifuge.WithHistory(10, time.Minute))
+				epoch = pr.Epoch
+			}
+			b, _ := env.NewConn("b", centrifuge.ProtocolTypeJSON)
+			b.Connect()
+			armed.Store(true)
+			leaderDone := make(chan struct{})
+			if probe == "sf-epoch" {
+				a, _ := env.NewConn("a", centrifuge.ProtocolTypeJSON)
+				a.Connect()
+				go func() {
+					a.Do(&protocol.Command{Id: a.NextID(), Subscribe: &protocol.SubscribeRequest{Channel: ch, Recover: true, Offset: 0, Epoch: epoch}})
+					close(leaderDone)
+				}()
+			} else {
+				go func() {
+					_, _ = env.Node.History(ch, centrifuge.WithHistoryFilter(centrifuge.HistoryFilter{Limit: 1}))
+					close(leaderDone)
+				}()
+			}
+			if !gate.WaitArrived(2 * time.Second) {
+				res.Drift("", probe+": leader read did not reach the broker", nil)
+				env.Close()
+				continue
+			}
+			id := b.NextID()
+			req := &protocol.SubscribeRequest{Channel: ch, Recover: true, Offset: 0, Epoch: epoch}
+			if probe == "sf-epoch" {
+				req.Epoch = "foreign-epoch"
+			}
+			bDone := make(chan struct{})
+			go func() {
+				b.Do(&protocol.Command{Id: id, Subscribe: req})
+				close(bDone)
+			}()
+			select {
+			case <-bDone:
+			case <-time.After(400 * time.Millisecond):
+			}
+			gate.Release()
+			<-leaderDone
+			<-bDone
+			rep := b.WaitReply(id, 2*time.Second)
+			replay := map[string]any{"probe": probe}
+			if rep == nil || rep.Subscribe == nil {
+				code := uint32(0)
+				if rep != nil && rep.Error != nil {
+					code = rep.Error.Code
+				}
+				if probe == "sf-epoch" && code == centrifuge.ErrorUnrecoverablePosition.Code {
+					// refused explicitly: fine
+				} else {
+					res.Drift("", fmt.Sprintf("%s: no subscribe reply (error code %d)", probe, code), replay)
+				}
+			} else {
+				var offs []uint64
+				for _, p := range rep.Subscribe.Publications {
+					offs = append(offs, p.Offset)
+				}
+				replay["recovered"] = rep.Subscribe.Recovered
+				replay["pubs"] = offs
+				if probe == "sf-epoch" && (rep.Subscribe.Recovered || len(offs) > 0) {
+					res.Violate("C02", "recovered-wrong-epoch:concurrent-read", fmt.Sprintf("recovery with a foreign epoch reported recovered=%v with publications %v while another recovery of the same position was in flight", rep.Subscribe.Recovered, offs), replay)
+				}
+				if probe == "sf-reverse" {
+					if !rep.Subscribe.Recovered {
+						res.Violate("C03", "recovered-flag:false:concurrent-read", fmt.Sprintf("cache recovery reported recovered=false although the newest publication (offset 2) is in history, while a forward history read was in flight (publications %v)", offs), replay)
+					} else if len(offs) != 1 || offs[0] != 2 {
+						res.Violate("C03", "not-newest-visible:concurrent-read", fmt.Sprintf("cache recovery delivered %v, the newest publication is offset 2", offs), replay)
+					}
+				}
+			}
+			res.Distinct(probe)
+			res.Sample(replay)
+			res.Done(1, 1)
+			env.Close()
+		}
+	}
+	return nil
+}
+
+func main() { vh.Main(map[string]vh.Mode{"replay": replay, "probes": probes, "sfprobes": sfprobes}) }
